@@ -243,6 +243,9 @@ def container_case(case, part):
     else:
         content = cid_container(case["cid_storage"], fmt)
         suffix = {"csv": ".csv", "ods": ".ods", "xlsx": ".xlsx"}[case["cid_storage"]]
+    if case["at"] >= len(content):
+        part.note("offsets beyond the size of a regenerated container (archive sizes vary slightly between writes)")
+        return
     if case["kind"] == "truncate":
         content = content[: case["at"]]
     else:
